@@ -13,6 +13,7 @@ func (e *Exec) oblige(kind, site string, props []string, pc, goal Term, desc, cl
 	if e.discovery > 0 {
 		return
 	}
+	goal = e.skolemizeGoal(goal)
 	fn := e.rootFn
 	base := fmt.Sprintf("%s#%s", funcKey(fn), kind)
 	if site != "" {
@@ -104,6 +105,7 @@ func (e *Exec) execInstr(f *Frame, b *ssa.BasicBlock, ins ssa.Instruction, st *S
 		idx := e.val(f, x.Index)
 		switch bt := unalias(base.T).Underlying().(type) {
 		case *types.Slice:
+			e.noteIndexTerm(idx.Term)
 			e.safety("index", And(app(">=", idx.Term, "0"), app("<", idx.Term, app("s_len", base.Term))), reach, "index out of range")
 			na := &Addr{Kind: addrArr, Root: bt.Elem(), Ref: app("s_base", base.Term), Idx: e.define(name(x)+"_i", "Int", app("+", app("s_off", base.Term), idx.Term))}
 			f.vals[x] = Val{T: x.Type(), Addr: na, Term: na.Ref}
@@ -187,7 +189,11 @@ func (e *Exec) execInstr(f *Frame, b *ssa.BasicBlock, ins ssa.Instruction, st *S
 		e.execCall(f, b, x, x.Common(), x, st, reach)
 	case *ssa.MakeInterface:
 		v := e.val(f, x.X)
-		f.vals[x] = Val{T: x.Type(), Term: e.define(name(x), "Any", e.reg.box(x.X.Type(), e.asTerm(v)))}
+		bx := e.define(name(x), "Any", e.reg.box(x.X.Type(), e.asTerm(v)))
+		f.vals[x] = Val{T: x.Type(), Term: bx}
+		if isRefLike(x.X.Type()) && isAtom(bx) {
+			e.boxOf[bx] = e.asTerm(v)
+		}
 		e.boxFacts(x.X.Type(), e.asTerm(v))
 	case *ssa.ChangeInterface:
 		v := e.val(f, x.X)
@@ -701,4 +707,152 @@ func (e *Exec) backEdge(f *Frame, li *loopInfo, latch *ssa.BasicBlock, st *State
 	for phi, v := range saved {
 		f.vals[phi] = v
 	}
+}
+
+// skolemizeGoal replaces positively occurring registered integer foralls (and negatively occurring
+// exists) in a goal by instances at fresh constants, which also become index terms.
+func (e *Exec) skolemizeGoal(goal Term) Term {
+	if len(e.intQuants) == 0 || !strings.Contains(goal, "Q!") {
+		return goal
+	}
+	byName := map[string]intQuant{}
+	for _, iq := range e.intQuants {
+		byName[iq.q] = iq
+	}
+	toks := tokenize(goal)
+	pos := 0
+	var walk func(polarity int) string
+	walk = func(polarity int) string {
+		if pos >= len(toks) {
+			return ""
+		}
+		t := toks[pos]
+		if t != "(" {
+			pos++
+			if iq, ok := byName[t]; ok && ((iq.forall && polarity > 0) || (!iq.forall && polarity < 0)) {
+				sk := e.fresh("sk", "Int")
+				inst := iq.inst(sk)
+				e.noteIndexTerm(sk)
+				return inst
+			}
+			return t
+		}
+		pos++ // (
+		head := toks[pos]
+		var parts []string
+		if head == "(" {
+			// compound head, e.g. ((_ is X) a): copy verbatim
+			depth := 0
+			start := pos - 1
+			for i := start; i < len(toks); i++ {
+				if toks[i] == "(" {
+					depth++
+				} else if toks[i] == ")" {
+					depth--
+					if depth == 0 {
+						pos = i + 1
+						return joinToks(toks[start : i+1])
+					}
+				}
+			}
+			return ""
+		}
+		pos++
+		parts = append(parts, head)
+		idx := 0
+		for pos < len(toks) && toks[pos] != ")" {
+			p := 0
+			switch head {
+			case "and", "or":
+				p = polarity
+			case "=>":
+				// all but the last argument are negative
+				p = -polarity
+				// determine whether this is the last argument: look ahead
+				save := pos
+				skipExpr(toks, &pos)
+				if pos < len(toks) && toks[pos] == ")" {
+					p = polarity
+				}
+				pos = save
+			case "not":
+				p = -polarity
+			default:
+				p = 0
+			}
+			parts = append(parts, walk(p))
+			idx++
+		}
+		pos++ // )
+		return "(" + strings.Join(parts, " ") + ")"
+	}
+	return walk(1)
+}
+
+func skipExpr(toks []string, pos *int) {
+	if toks[*pos] != "(" {
+		*pos++
+		return
+	}
+	d := 0
+	for *pos < len(toks) {
+		if toks[*pos] == "(" {
+			d++
+		} else if toks[*pos] == ")" {
+			d--
+			if d == 0 {
+				*pos++
+				return
+			}
+		}
+		*pos++
+	}
+}
+
+func tokenize(s string) []string {
+	var out []string
+	i := 0
+	for i < len(s) {
+		c := s[i]
+		switch {
+		case c == ' ' || c == '\n' || c == '\t':
+			i++
+		case c == '(' || c == ')':
+			out = append(out, string(c))
+			i++
+		case c == '"':
+			j := i + 1
+			for j < len(s) {
+				if s[j] == '"' {
+					if j+1 < len(s) && s[j+1] == '"' {
+						j += 2
+						continue
+					}
+					break
+				}
+				j++
+			}
+			out = append(out, s[i:j+1])
+			i = j + 1
+		default:
+			j := i
+			for j < len(s) && s[j] != ' ' && s[j] != '(' && s[j] != ')' && s[j] != '\n' {
+				j++
+			}
+			out = append(out, s[i:j])
+			i = j
+		}
+	}
+	return out
+}
+
+func joinToks(toks []string) string {
+	var b strings.Builder
+	for i, t := range toks {
+		if i > 0 && t != ")" && toks[i-1] != "(" {
+			b.WriteByte(' ')
+		}
+		b.WriteString(t)
+	}
+	return b.String()
 }
